@@ -393,7 +393,7 @@ def rule_index_seeding(ctx, rep, rid):
         # after a successful append the counter must hold the allocated index (store(index)) or have been advanced by fetch_add(1)
         adv = [c for c in b.calls if (c.matches('std::sync::atomic::Atomic::fetch_add') or c.matches('std::sync::atomic::Atomic::store')) and render(b.expr_operand(c.args[0])).endswith('.current_index')]
         for c in adv:
-            v = canon(b.pexpr_operand(c.args[1]), 0, 2)
+            v = canon(b.pexpr_operand(c.args[1], 0, frozenset(), (c.bb, "t")), 0, 2)
             if c.name.endswith('store'):
                 okv = v == f
             else:
